@@ -336,7 +336,10 @@ def run_check(prop, tier, seed, runs=None, workers=None, wall_cap=None, write_ev
     n_viol_runs = sum(1 for s in ok_runs if s['violations'])
     reported, known_lines = [], []
     exit_code = 0
-    for kind, idxs in sorted(first_by_kind.items()):
+    total_min_budget = float(cfg.get('min_budget_total', 100))     # wall budget for minimising, over all kinds
+    t_min0 = time.monotonic()
+    # kinds seen in most runs first; only the first three unknown kinds get a replay file, the rest is listed
+    for kind, idxs in sorted(first_by_kind.items(), key=lambda kv: (-len(kv[1]), kv[0])):
         handled_unknown = 0
         known_seen = set()
         for i in idxs:
@@ -352,8 +355,14 @@ def run_check(prop, tier, seed, runs=None, workers=None, wall_cap=None, write_ev
                     known_seen.add(key)
                     known_lines.append(f"KNOWN-FINDING: property={prop} {ent['what']} [key={key}; e.g. run {i}, {len(idxs)} runs of kind {kind}]")
                 continue
+            if len(reported) >= 3:
+                v = next(v for v in res.violations if v['kind'] == kind)
+                print(f"# violation kind={kind} run={i} ({len(idxs)} runs) (further kind, no replay file written; ./check {prop} --one {i} re-executes it): {v['detail'][:300]}")
+                exit_code = 1
+                break
             # unknown violation: minimise, write replay, verify replay
-            small, tried = minimise(mod, case, kind, budget_s=float(cfg.get('min_budget', 40)))
+            left = max(5.0, total_min_budget - (time.monotonic() - t_min0))
+            small, tried = minimise(mod, case, kind, budget_s=min(float(cfg.get('min_budget', 40)), left))
             # a minimised case must not drift into a known finding
             rs = execute_guarded(mod, small)
             if hasattr(mod, 'finding_key') and known_entry(prop, mod.finding_key(small, rs, kind)) is not None:
